@@ -151,6 +151,14 @@ VAdvance(e) ==
   ELSE IF "dobsall" \in DOMAIN e /\ ~ObsAllOK(T.S, e.dobsall) THEN V("C31_agree_state_after_timeout", H)
   ELSE V("", T)
 
+\* the lease checker deleted what had expired (the server object itself was not involved): the clauses belong to
+\* C26 (what a cycle removes); the requests that follow are judged against the state the Spec computes
+VExpire(e) ==
+  LET T == HExpire(H, e.dt) IN
+  IF e.crash # "" THEN V("C26_http_cycle_raised", H)
+  ELSE IF ~ObsAllOK(T.S, e.obsall) THEN V("C26_http_state_after_expiry", H)
+  ELSE V("", T)
+
 \* a read of length zero through the HTTP client: the statement asks for what the direct call gives (no bytes)
 VClientRead0(e) ==
   LET r == NormReq(e.r) IN
@@ -195,6 +203,7 @@ Verdict(e) ==
     [] e.ev = "ReqLost" -> VReqLost(e)
     [] e.ev = "ClientRead0" -> VClientRead0(e)
     [] e.ev = "Advance" -> VAdvance(e)
+    [] e.ev = "Expire"  -> VExpire(e)
     [] OTHER            -> V("unknown_event", H)
 
 TraceInit ==
